@@ -32,6 +32,15 @@ type Rec struct {
 // setter) and adds its amount to the pending/wait figures so that the aggregates stay equal to the
 // sum over live records. heightBits bounds block heights, nonceBits bounds nonces.
 func (l *Ledger) AddRecord(tag string, s, o int, heightBits, nonceBits int) *Rec {
+	return l.addRecord(tag, s, o, heightBits, nonceBits, 0, false)
+}
+
+// AddRecordWithNonce is AddRecord with a concrete nonce.
+func (l *Ledger) AddRecordWithNonce(tag string, s, o int, heightBits int, nonce uint64) *Rec {
+	return l.addRecord(tag, s, o, heightBits, 64, nonce, true)
+}
+
+func (l *Ledger) addRecord(tag string, s, o int, heightBits, nonceBits int, fixedNonce uint64, fixed bool) *Rec {
 	e, ctx := l.E, l.E.Ctx
 	amount := l.amt(tag + "_amount")
 	verifrt.Assume(amount.IsPositive())
@@ -39,9 +48,12 @@ func (l *Ledger) AddRecord(tag string, s, o int, heightBits, nonceBits int) *Rec
 	verifrt.Assume(actual.LTE(amount))
 	start := verifrt.U64(tag + "_start")
 	complete := verifrt.U64(tag + "_complete")
-	nonce := verifrt.U64(tag + "_nonce")
+	nonce := fixedNonce
+	if !fixed {
+		nonce = verifrt.U64(tag + "_nonce")
+	}
 	h := uint64(ctx.BlockHeight())
-	verifrt.Assume(verifrt.All(start <= h, complete >= h, complete < (uint64(1)<<uint(heightBits)), nonce < (uint64(1)<<uint(nonceBits))))
+	verifrt.Assume(verifrt.All(start <= h, complete >= h, complete < (uint64(1)<<uint(heightBits)), fixed || nonce < (uint64(1)<<uint(nonceBits%64))))
 	tx := TxHashes[verifrt.Choice(tag+"_tx", len(TxHashes))]
 	rec := delegationtypes.UndelegationRecord{
 		StakerID: StakerID(s), AssetID: l.AssetID, OperatorAddr: OperatorBech[o], TxHash: tx, IsPending: true,
